@@ -35,6 +35,10 @@ type Config struct {
 	// that channels whose policies are all older than the prune horizon
 	// are pruned into the zombie index.
 	Aging bool
+	// StrictZombie (aging arm only): graph.Builder's StrictZombiePruning -
+	// a channel is a zombie as soon as EITHER edge is older than the horizon,
+	// and only the lagging side may bring it back.
+	StrictZombie bool
 	// BanThreshold: 100 is the daemon default; 4 lets a run reach the ban.
 	BanThreshold uint64
 	// weights of the step kinds
@@ -72,6 +76,7 @@ func DrawConfig(t *simcore.Tape, thorough bool) Config {
 	switch a := t.CfgDraw(16); {
 	case a == 8:
 		c.Aging = true
+		c.StrictZombie = t.CfgDraw(2) == 1
 	case a >= 9 && a <= 12:
 		c.Burst = true
 	case a == 13 || a == 14:
@@ -337,6 +342,7 @@ func (s *Sim) run() {
 	chain := s.buildUniverse()
 	self := newNode(100)
 	agingWorld = s.cfg.Aging
+	strictZombieWorld = s.cfg.StrictZombie
 	s.zombieSince, s.liveUpd = map[uint64]uint32{}, map[uint64]bool{}
 	s.w = NewWorld(r, chain, self, s.cfg.Peers, s.cfg.SyncPeers, s.cfg.SQL, s.cfg.BanThreshold)
 	logf(r, "config: %+v", s.cfg)
